@@ -49,9 +49,10 @@ def deco(fn):
 class Base:
     def __init__(self, k):
         self.k = k
+        self.__k = k  # a private (name-mangled) attribute: _Base__k
 
     def meth(RECV, v):
-        w = v + RECV.k
+        w = v + RECV.__k
         return w
 
     @deco
@@ -128,6 +129,7 @@ class FalsyList(list):
     def __init__(self, k):
         super().__init__()
         self.k = k
+        self._Base__k = k
 
     meth = Base.meth
     smeth = Base.smeth
